@@ -59,11 +59,11 @@ def fault_case(ctx, case):
     dev_kind = 'lenient' if case['lenient'] else 'strict'
     if r.done or r.status == 0:
         ctx.violation('%s:fault:%s:%s:%s' % (PROP, k0, 'done' if r.done else 'exit-0', dev_kind),
-                      'device reports %s (%d) for %s #%d of a %d-page run (%s device): done=%s, exit %r' % (NAMES[c0], c0, k0, i0, case['npages'], dev_kind, r.done, r.status),
+                      'device reports %s (%d) for %s #%d of a %d-page run (%s device): done=%s, exit %r' % (NAMES.get(c0, 'reserved status %d' % c0), c0, k0, i0, case['npages'], dev_kind, r.done, r.status),
                       'fault_case', case, expected='no "done!", non-zero exit', observed=dict(status=r.status, done=r.done, stdout=r.stdout[-200:]))
-    elif k0 in ('erase', 'write') and not names_failure(r.stdout, c0):
-        ctx.violation('%s:fault:%s:not-named:%s' % (PROP, k0, dev_kind), 'device reports %s for %s #%d: the output does not name the failure: %r' % (NAMES[c0], k0, i0, r.stdout[-160:]),
-                      'fault_case', case, expected='output names ' + NAMES[c0], observed=r.stdout[-300:])
+    elif k0 in ('erase', 'write') and c0 in NAMES and not names_failure(r.stdout, c0):
+        ctx.violation('%s:fault:%s:not-named:%s' % (PROP, k0, dev_kind), 'device reports %s for %s #%d: the output does not name the failure: %r' % (NAMES.get(c0, 'reserved status %d' % c0), k0, i0, r.stdout[-160:]),
+                      'fault_case', case, expected='output names ' + NAMES.get(c0, 'reserved status %d' % c0), observed=r.stdout[-300:])
 
 
 def task(ctx, items):
@@ -87,12 +87,13 @@ def run(tier, seed, t0):
         for n in (flash + 1, flash + 1024, flash + 1025, 2 * flash):
             items.append(('oversize_case', dict(pages=pages, length=n, via='fifo')))
     codes = list(range(1, 16))
+    RESERVED = [16, 0x40, 0xff]          # status bytes DFU 1.1 leaves undefined: no wording is demanded for them, but the run may not end as a success
     maxp = 5 if tier == 'quick' else 16
     for npages in range(1, maxp + 1):
         steps = [(k, i) for k in ('erase', 'setaddr', 'write') for i in range(npages)]
         for lenient in (False, True):
             for (k, i) in steps:
-                for c in codes:
+                for c in codes + RESERVED:
                     for uni in ((1, 5), (0, 0)):
                         items.append(('fault_case', dict(pages=16, npages=npages, faults=[[k, i, c]], lenient=lenient, uniform=list(uni))))
         # every pair of injections (only a lenient device gets past the first one)
@@ -117,7 +118,7 @@ def run(tier, seed, t0):
                rule='one state per (variant, image length / page count, set of injected faults, device kind, uniform schedule); one complete execution of dfu.cli_main() each; non-trivial = '
                     'fault runs in which the device actually reported the injected error status',
                exhaustive=True, oversize_runs=n['oversize_runs'], fault_runs=n['fault_runs'], fault_not_reached=n['fault_not_reached'], monitor_states=joint,
-               bound='oversize: flash+1..flash+1025, 2*flash, flash+2^20 (+1) x 4 variants (4 of them also through a named pipe); faults: %d status codes x every erase / set-address / write step of 1..%d page runs x {strict, lenient} '
+               bound='oversize: flash+1..flash+1025, 2*flash, flash+2^20 (+1) x 4 variants (4 of them also through a named pipe); faults: %d status codes (+ 3 undefined ones) x every erase / set-address / write step of 1..%d page runs x {strict, lenient} '
                      'device x 2 schedules; every pair of steps on the lenient device; first / last step on the other three variants' % (len(codes), maxp))
     return kernel.finish(PROP, tier, seed, t0, m, cov, [
         'device model mc/ref/dfuse.py; a specification-conformant device enters dfuERROR and stalls further downloads, the lenient variant keeps accepting them',
